@@ -609,6 +609,7 @@ def _dohist(data, dmin, s, binsize, hist, revind=None):
 
     nbin = hist.size
     offset = nbin + 1
+    offset_end = offset
     i = 0
     binnum_old = -1
 
@@ -630,6 +631,8 @@ def _dohist(data, dmin, s, binsize, hist, revind=None):
 
             hist[binnum] += 1
             binnum_old = binnum
+            # one past the last datum that was counted
+            offset_end = offset + 1
 
         i += 1
         offset += 1
@@ -638,7 +641,7 @@ def _dohist(data, dmin, s, binsize, hist, revind=None):
         # Fill in the last ones
         tbin = binnum_old + 1
         while tbin <= nbin:
-            revind[tbin] = revind.size
+            revind[tbin] = offset_end
             tbin += 1
 
 
